@@ -342,3 +342,33 @@ def none_rule_sites(repo, func):
         if is_container_term(ce.recv, s):
             out.append((e.node, unparse(v.func.value), v.func.attr))
     return out
+
+
+# ------------------------------------------------------------------ small array algebra normal form
+def arrnf(t):
+    """1-D constant vectors and stacking: [c]*n, np.ones(n), np.zeros(n), np.array(...), concatenation, reshape(-1, 1)"""
+    def f(x):
+        k = x[0]
+        if k == "rep" and x[1][0] == "seq" and len(x[1][1]) == 1:
+            return ("fill", x[1][1][0], x[2])
+        if k == "call":
+            fn, a = x[1], x[2]
+            if fn in ("numpy.array", "numpy.asarray") and len(a) >= 1 and a[0][0] in ("fill", "concat", "seq", "rep", "arr"):
+                return a[0] if a[0][0] != "arr" else T.seq(a[0][1])
+            if fn in ("numpy.ones", "numpy.zeros") and len(a) == 1 and a[0][0] not in ("seq", "arr"):
+                c = T.num(1) if fn == "numpy.ones" else T.num(0)
+                if a[0][0] == "num" and a[0][1].denominator == 1 and 0 <= a[0][1] <= 4:
+                    return T.seq((c,) * int(a[0][1]))
+                return ("fill", c, a[0])
+            if fn == "numpy.full" and len(a) == 2 and a[0][0] not in ("seq", "arr"):
+                return ("fill", a[1], a[0])
+            if fn == "numpy.concatenate" and len(a) == 1 and a[0][0] == "seq" and len(a[0][1]) == 2:
+                return ("concat", a[0][1][0], a[0][1][1])
+            if fn == ("m", "reshape") and len(a) == 3 and a[1] == T.num(-1) and a[2] == T.num(1):
+                return ("col", a[0])
+            if fn == ("m", "reshape") and len(a) == 2 and a[1] == T.seq((T.num(-1), T.num(1))):
+                return ("col", a[0])
+        if k == "arr":
+            return T.seq(x[1])
+        return None
+    return T.transform(t, f)
